@@ -1299,6 +1299,20 @@ fn derived_tuples(b: &Bench, len: usize, rng: &mut Rng, want_paths: bool) -> Vec
 	sv.trim();
 	let cycles = sv.cycles(len, 200_000);
 	let full: Vec<&CycleRec> = cycles.iter().filter(|c| c.nonces.len() == len).collect();
+	// cycles of the graph one would get by letting the nonces run on to twice the edge range (same endpoint
+	// function, same node mask) that use at least one nonce beyond the range: ascending, right count, closed
+	// and simple — refused only by "within the graph's edge range"
+	{
+		let mut wide = all.clone();
+		for nonce in n_edges..2 * n_edges {
+			wide.push(ref_ends(var, b.eb, &b.keys, nonce));
+		}
+		let mut sw = Solver::new(var, &wide);
+		sw.trim();
+		for c in sw.cycles(len, 200_000).iter().filter(|c| c.nonces.len() == len && c.nonces.iter().any(|x| *x >= n_edges)).take(3) {
+			out.push(("cycle_beyond_edge_range", c.nonces.clone(), true));
+		}
+	}
 	for c in full.iter().take(3) {
 		let cy = &c.nonces;
 		out.push(("solver_cycle", cy.clone(), false));
